@@ -697,6 +697,8 @@ class Session:
                 if self.client_do(self.client.reset_stream, sid):
                     self.client_reset.add(sid)
                 self.actions.append(("open+rst", k))
+                if rng.random() < 0.4 and self.open_stream():  # ... and the next request right behind it (h2 then forgets the cancelled one)
+                    self.actions.append(("open", len(self.sid_of) - 1))
                 self.flush()
         elif r < 0.955 and live:
             sid = rng.choice(live)
